@@ -161,6 +161,20 @@ Definition dispatch_graph (fn : Z) (args : list (list Z)) : option (list (list Z
                     | OutOfFuel => OutOfFuel
                     end in
       Some (out_result (fun r => r) (a <- main ;; b <- second ;; Ok (a ++ b)))
+  | 52, [k; h; ms; t; vsel; bits; faster; sh; fuel] =>
+      (* composite (C02): LocalBioFilter -> vertices -> coding graph -> start vertex -> encode -> filter verdicts *)
+      let c := dec_cfg h ms in
+      let kk := natarg k in
+      Some (out_result (fun r => r)
+        (mask <- find_vertices kk (valid c true) ;;
+         g <- connect_coding_graph kk mask (a1 t) ;;
+         let '(V, acc) := g in
+         let v0 := nth (Z.to_nat (a1 vsel mod Z.of_nat (length V))) V 0 in
+         e <- encode bits acc v0 (boolarg faster) 0 (opt_table sh) (natarg fuel) ;;
+         let s := fst e in
+         let whole := kmer_string kk v0 ++ s in
+         Ok [[v0]; s; [b2z (valid c false s); b2z (valid c false whole)];
+             map (fun i => b2z (valid c true (firstn kk (skipn i whole)))) (seq 0 (S (length s)))]))
   | 41, [h; ms; only_last; s] => Some [[0]; [b2z (valid (dec_cfg h ms) (boolarg only_last) s)]]
   | 42, [h; ms] => Some [[0]; [b2z (ctor_accepts (dec_cfg h ms))]]
   | 43, [k; h; ms] => Some (out_result (fun l => [l]) (find_vertices (natarg k) (valid (dec_cfg h ms) true)))
